@@ -357,10 +357,11 @@ simplex at exact arithmetic).  Nothing is assumed about HOW a solver finds its a
 
 `_partial`: the theorems inherit the region of C01/C02's end-to-end statements — `FragModel true m m.domain`
 (piecewise-linear objective and comparisons over declared, used variables, defined everywhere; no logic values or
-bare assertions), `DeclOK m.domain` (decidable well-formedness of the declarations) and `IntRangesInBox` on the
-computed analyzer state (trivial without `IntegerRange` variables: `intRangesInBox_of_noInt`).  The excluded region
-is witnessed by `Rooc.Props.C01.c01_int_tolerance_counterexample` (a point of the compiled model that is not a
-point of the source) and `Rooc.Props.C01.c01_defined_counterexample`. -/
+bare assertions), `DeclOK m.domain` (decidable well-formedness of the declarations) and a tolerance `0 ≤ t < 1` (or no
+`IntegerRange` variable at all) — since fix b9d407a the integer ranges `apply_to_domain` publishes stay inside the box
+the lowering prunes with (`Rooc.LinP.enforceable_int_ranges_in_box`).  The excluded region is witnessed by
+`Rooc.Props.C01.c01_defined_counterexample` (definedness) and, for what the unrounded integer box allowed before the
+repair, `Rooc.Props.C01.c01_int_tolerance_counterexample`. -/
 section Composition
 open Rooc.LinP Rooc.Compose
 
@@ -370,9 +371,9 @@ objective over the extensions). -/
 theorem c03_compilesTo_partial {m : Model (Ext K)} {t : K} (ht : 0 ≤ t) {maxSteps : Nat} {lm : LinModel (Ext K)}
     (h : Compile.linearize m (.fin t) maxSteps = .ok lm)
     (hm : FragModel true m m.domain) (hok : DeclOK m.domain)
-    (hint : ∀ an, pipelineAnalyzer m (.fin t) maxSteps = some an → IntRangesInBox an m.domain) :
+    (ht1 : t < 1 ∨ NoIntegerVars m.domain) :
     CompilesTo m lm :=
-  compilesTo_of_compile ht h hm hok hint
+  compilesTo_of_compile ht h hm hok ht1
 
 /-- **the solver's optimum of the compiled model, read on the declared variables, is an optimum of the source with
 the same value**: `ρ'` itself (auxiliaries are simply extra names) satisfies the source model, the source objective
@@ -381,12 +382,12 @@ better objective. -/
 theorem c03_compile_optimal_partial {m : Model (Ext K)} {t : K} (ht : 0 ≤ t) {maxSteps : Nat} {lm : LinModel (Ext K)}
     (h : Compile.linearize m (.fin t) maxSteps = .ok lm)
     (hm : FragModel true m m.domain) (hok : DeclOK m.domain)
-    (hint : ∀ an, pipelineAnalyzer m (.fin t) maxSteps = some an → IntRangesInBox an m.domain)
+    (ht1 : t < 1 ∨ NoIntegerVars m.domain)
     {ρ' : String → K} (ho : LinOptimal lm ρ') :
     srcFeasible m ρ' = true ∧ eval ρ' m.objective = linObjective lm ρ' ∧ (eval ρ' m.objective).isSome = true ∧
     ∀ ρ : String → K, srcFeasible m ρ = true → ∀ u v, eval ρ m.objective = some u →
       eval ρ' m.objective = some v → better m.optType u v = false := by
-  obtain ⟨v, hopt, hw⟩ := optimal_transfer (compilesTo_of_compile ht h hm hok hint) ho
+  obtain ⟨v, hopt, hw⟩ := optimal_transfer (compilesTo_of_compile ht h hm hok ht1) ho
   refine ⟨hopt.feasible, by rw [hopt.value, hw], by rw [hopt.value]; rfl, ?_⟩
   intro ρ hs u v' hu hv'
   rw [hopt.value] at hv'; cases hv'
@@ -398,30 +399,30 @@ a solver that answers `LinOptimal` cannot report a value different from the sour
 theorem c03_compile_optimal_complete_partial {m : Model (Ext K)} {t : K} (ht : 0 ≤ t) {maxSteps : Nat}
     {lm : LinModel (Ext K)} (h : Compile.linearize m (.fin t) maxSteps = .ok lm)
     (hm : FragModel true m m.domain) (hok : DeclOK m.domain)
-    (hint : ∀ an, pipelineAnalyzer m (.fin t) maxSteps = some an → IntRangesInBox an m.domain)
+    (ht1 : t < 1 ∨ NoIntegerVars m.domain)
     {ρ : String → K} {v : K} (hs : srcFeasible m ρ = true) (hv : eval ρ m.objective = some v)
     (hbest : ∀ ρ₂ : String → K, srcFeasible m ρ₂ = true → ∀ u, eval ρ₂ m.objective = some u →
       better m.optType u v = false) :
     ∃ ρ' : String → K, (∀ x, inScope m.domain x → ρ' x = ρ x) ∧ LinOptimal lm ρ' ∧ linObjective lm ρ' = some v :=
-  optimal_complete (compilesTo_of_compile ht h hm hok hint) ⟨hs, hv, hbest⟩
+  optimal_complete (compilesTo_of_compile ht h hm hok ht1) ⟨hs, hv, hbest⟩
 
 /-- **`infeasible` is right in both directions**: the compiled model has no point iff NO assignment satisfies the
 source. -/
 theorem c03_compile_infeasible_partial {m : Model (Ext K)} {t : K} (ht : 0 ≤ t) {maxSteps : Nat} {lm : LinModel (Ext K)}
     (h : Compile.linearize m (.fin t) maxSteps = .ok lm)
     (hm : FragModel true m m.domain) (hok : DeclOK m.domain)
-    (hint : ∀ an, pipelineAnalyzer m (.fin t) maxSteps = some an → IntRangesInBox an m.domain) :
+    (ht1 : t < 1 ∨ NoIntegerVars m.domain) :
     LinInfeasible lm ↔ ∀ ρ : String → K, srcFeasible m ρ = false :=
-  infeasible_iff (compilesTo_of_compile ht h hm hok hint)
+  infeasible_iff (compilesTo_of_compile ht h hm hok ht1)
 
 /-- **`unbounded` is right in both directions**: the compiled model has points with linear objective beyond every
 bound (in the model's direction) iff the source has satisfying assignments with objective beyond every bound. -/
 theorem c03_compile_unbounded_partial {m : Model (Ext K)} {t : K} (ht : 0 ≤ t) {maxSteps : Nat} {lm : LinModel (Ext K)}
     (h : Compile.linearize m (.fin t) maxSteps = .ok lm)
     (hm : FragModel true m m.domain) (hok : DeclOK m.domain)
-    (hint : ∀ an, pipelineAnalyzer m (.fin t) maxSteps = some an → IntRangesInBox an m.domain) :
+    (ht1 : t < 1 ∨ NoIntegerVars m.domain) :
     LinUnbounded lm ↔ SrcUnbounded m :=
-  unbounded_iff (compilesTo_of_compile ht h hm hok hint)
+  unbounded_iff (compilesTo_of_compile ht h hm hok ht1)
 
 /-- the reference side needs `Closed m`; on the fragment it is not an extra hypothesis. -/
 theorem c03_closed_of_fragment {m : Model (Ext K)} (hm : FragModel true m m.domain) : Closed m = true :=
@@ -435,11 +436,11 @@ and `ρ'` satisfies the source (the comparison `./check C03` performs per case, 
 theorem c03_ref_agrees_partial {m : Model (Ext K)} {t : K} (ht : 0 ≤ t) {maxSteps : Nat} {lm : LinModel (Ext K)}
     (h : Compile.linearize m (.fin t) maxSteps = .ok lm)
     (hm : FragModel true m m.domain) (hok : DeclOK m.domain)
-    (hint : ∀ an, pipelineAnalyzer m (.fin t) maxSteps = some an → IntRangesInBox an m.domain)
+    (ht1 : t < 1 ∨ NoIntegerVars m.domain)
     {v : K} {w : List (String × K)} (hr : refSolve m = .optimal v w) {ρ' : String → K} (ho : LinOptimal lm ρ') :
     linObjective lm ρ' = some v ∧ srcFeasible m ρ' = true := by
   obtain ⟨hne, hfw, hvw, hbest⟩ := refSolve_optimal_spec hr
-  obtain ⟨v', hopt, hw⟩ := optimal_transfer (compilesTo_of_compile ht h hm hok hint) ho
+  obtain ⟨v', hopt, hw⟩ := optimal_transfer (compilesTo_of_compile ht h hm hok ht1) ho
   have h1 := hbest (closed_of_fragModel hm) ρ' hopt.feasible v' hopt.value
   have h2 := hopt.best (lookup w) hfw v hvw
   rw [hw, eq_of_not_better hne h1 h2]
@@ -450,23 +451,23 @@ witness): the hypotheses of `c03_ref_agrees_partial` are never contradictory. -/
 theorem c03_ref_optimal_attained_partial {m : Model (Ext K)} {t : K} (ht : 0 ≤ t) {maxSteps : Nat}
     {lm : LinModel (Ext K)} (h : Compile.linearize m (.fin t) maxSteps = .ok lm)
     (hm : FragModel true m m.domain) (hok : DeclOK m.domain)
-    (hint : ∀ an, pipelineAnalyzer m (.fin t) maxSteps = some an → IntRangesInBox an m.domain)
+    (ht1 : t < 1 ∨ NoIntegerVars m.domain)
     {v : K} {w : List (String × K)} (hr : refSolve m = .optimal v w) :
     ∃ ρ' : String → K, (∀ x, inScope m.domain x → ρ' x = lookup w x) ∧ LinOptimal lm ρ' ∧
       linObjective lm ρ' = some v := by
   obtain ⟨_, hfw, hvw, hbest⟩ := refSolve_optimal_spec hr
-  exact optimal_complete (compilesTo_of_compile ht h hm hok hint)
+  exact optimal_complete (compilesTo_of_compile ht h hm hok ht1)
     ⟨hfw, hvw, fun ρ₂ hs₂ u hu => hbest (closed_of_fragModel hm) ρ₂ hs₂ u hu⟩
 
 /-- **the reference says `infeasible` exactly when the compiled model has no point.** -/
 theorem c03_ref_infeasible_iff_partial {m : Model (Ext K)} {t : K} (ht : 0 ≤ t) {maxSteps : Nat}
     {lm : LinModel (Ext K)} (h : Compile.linearize m (.fin t) maxSteps = .ok lm)
     (hm : FragModel true m m.domain) (hok : DeclOK m.domain)
-    (hint : ∀ an, pipelineAnalyzer m (.fin t) maxSteps = some an → IntRangesInBox an m.domain)
+    (ht1 : t < 1 ∨ NoIntegerVars m.domain)
     {asg : List (List (String × K))} (ha : assignments m.domain = some asg) :
     refSolve m = .infeasible ↔ LinInfeasible lm := by
   rw [refSolve_infeasible_iff ha (closed_of_fragModel hm),
-    infeasible_iff (compilesTo_of_compile ht h hm hok hint)]
+    infeasible_iff (compilesTo_of_compile ht h hm hok ht1)]
 
 /-- **end to end, verdict by verdict**: on an enumerable model of the fragment, a solver that honours its contract
 on the compiled model — it answers either a point with `LinOptimal` or the verdict `LinInfeasible` — agrees with the
@@ -475,19 +476,19 @@ point (`min`/`max`) or `feasibleAny _` (`satisfy`). -/
 theorem c03_answer_matches_reference_partial {m : Model (Ext K)} {t : K} (ht : 0 ≤ t) {maxSteps : Nat}
     {lm : LinModel (Ext K)} (h : Compile.linearize m (.fin t) maxSteps = .ok lm)
     (hm : FragModel true m m.domain) (hok : DeclOK m.domain)
-    (hint : ∀ an, pipelineAnalyzer m (.fin t) maxSteps = some an → IntRangesInBox an m.domain)
+    (ht1 : t < 1 ∨ NoIntegerVars m.domain)
     {asg : List (List (String × K))} (ha : assignments m.domain = some asg) :
     (LinInfeasible lm → refSolve m = .infeasible) ∧
     (∀ ρ' : String → K, LinOptimal lm ρ' →
       (m.optType ≠ .satisfy → ∃ v w, refSolve m = .optimal v w ∧ linObjective lm ρ' = some v) ∧
       (m.optType = .satisfy → ∃ w, refSolve m = .feasibleAny w)) := by
-  have hc := compilesTo_of_compile ht h hm hok hint
+  have hc := compilesTo_of_compile ht h hm hok ht1
   have hcl := closed_of_fragModel hm
-  refine ⟨fun hi => (c03_ref_infeasible_iff_partial ht h hm hok hint ha).mpr hi, fun ρ' ho => ⟨?_, ?_⟩⟩
+  refine ⟨fun hi => (c03_ref_infeasible_iff_partial ht h hm hok ht1 ha).mpr hi, fun ρ' ho => ⟨?_, ?_⟩⟩
   · intro hne
     obtain ⟨v, w, hr⟩ := refSolve_optimal_complete ha hcl hne (src_of_lin hc ho.feasible)
       (fun ρ₂ _ => by obtain ⟨u, hu⟩ := hc.objDefined ρ₂; rw [hu]; rfl)
-    exact ⟨v, w, hr, (c03_ref_agrees_partial ht h hm hok hint hr ho).1⟩
+    exact ⟨v, w, hr, (c03_ref_agrees_partial ht h hm hok ht1 hr ho).1⟩
   · intro hsat
     exact refSolve_feasibleAny_complete ha hcl hsat (src_of_lin hc ho.feasible)
 
@@ -506,7 +507,7 @@ example (t : ℚ) (ht : 0 ≤ t) (n : Nat) : ∃ (lm : LinModel (Ext ℚ)) (ρ' 
     LinOptimal lm ρ' ∧ linObjective lm ρ' = some 0 := by
   obtain ⟨lm, h⟩ := exBool_compile (K := ℚ) (.fin t) n
   obtain ⟨ρ', _, ho, hv⟩ := c03_compile_optimal_complete_partial ht h exBool_frag exBool_declOK
-    (fun an _ => intRangesInBox_of_noInt exBool_noInt an) (ρ := fun _ => 0) (v := 0)
+    (Or.inr exBool_noInt) (ρ := fun _ => 0) (v := 0)
     exBool_srcOptimal.feasible exBool_srcOptimal.value exBool_srcOptimal.best
   exact ⟨lm, ρ', h, exBool_frag, exBool_declOK, exBool_noInt, ho, hv⟩
 
@@ -519,7 +520,7 @@ its linear objective is the reference's optimum 0 and the point satisfies the so
 example (t : ℚ) (ht : 0 ≤ t) (n : Nat) {lm : LinModel (Ext ℚ)}
     (h : Compile.linearize (exBool : Model (Ext ℚ)) (.fin t) n = .ok lm) {ρ' : String → ℚ} (ho : LinOptimal lm ρ') :
     linObjective lm ρ' = some 0 ∧ srcFeasible (exBool : Model (Ext ℚ)) ρ' = true :=
-  c03_ref_agrees_partial ht h exBool_frag exBool_declOK (fun an _ => intRangesInBox_of_noInt exBool_noInt an)
+  c03_ref_agrees_partial ht h exBool_frag exBool_declOK (Or.inr exBool_noInt)
     (v := 0) (w := [("x", 0), ("y", 0)]) (by rw [fieldExact_rat]; decide +kernel) ho
 
 /-- `c03_compile_infeasible_partial` is not vacuous in the other direction either: the compiled `exBool` is NOT
@@ -528,7 +529,7 @@ example (t : ℚ) (ht : 0 ≤ t) (n : Nat) {lm : LinModel (Ext ℚ)}
     (h : Compile.linearize (exBool : Model (Ext ℚ)) (.fin t) n = .ok lm) : ¬ LinInfeasible lm := by
   intro hi
   have := (c03_compile_infeasible_partial ht h exBool_frag exBool_declOK
-    (fun an _ => intRangesInBox_of_noInt exBool_noInt an)).mp hi (fun _ => 0)
+    (Or.inr exBool_noInt)).mp hi (fun _ => 0)
   rw [exBool_srcOptimal.feasible] at this
   cases this
 
@@ -553,7 +554,7 @@ feasible tableau of the standard form of the compiled model, the by-name point i
 theorem c03_slow_simplex_end_to_end_partial {m : Model (Ext K)} {t : K} (ht : 0 ≤ t) {maxSteps : Nat}
     {lm : LinModel (Ext K)} (h : Compile.linearize m (.fin t) maxSteps = .ok lm)
     (hm : FragModel true m m.domain) (hok : DeclOK m.domain)
-    (hint : ∀ an, pipelineAnalyzer m (.fin t) maxSteps = some an → IntRangesInBox an m.domain)
+    (ht1 : t < 1 ∨ NoIntegerVars m.domain)
     (hW : WF lm) (hnn : ∀ d ∈ lm.domain, ComposeSem.NNOK d.ty) (hdv : DomVars lm) (hnd : lm.vars.Nodup)
     {s : StdModel (Ext K)} (hs : standardize lm = .ok s) {T : Tab K} (hT : CanonicalFor T (stdK s))
     (stallExtra limit : Nat) (prefer : List Nat)
@@ -564,7 +565,7 @@ theorem c03_slow_simplex_end_to_end_partial {m : Model (Ext K)} {t : K} (ht : 0 
     ∀ ρ : String → K, srcFeasible m ρ = true → ∀ u, eval ρ m.objective = some u →
       better m.optType u (optimalValue (solve (0:K) stallExtra limit prefer T).final) = false := by
   obtain ⟨ho, hv⟩ := simplex_linOptimal hW hnn hdv hnd hs hT stallExtra limit prefer hfin
-  obtain ⟨hs', he, _, hbest⟩ := c03_compile_optimal_partial ht h hm hok hint ho
+  obtain ⟨hs', he, _, hbest⟩ := c03_compile_optimal_partial ht h hm hok ht1 ho
   rw [hv] at he
   exact ⟨hs', he, fun ρ hρ u hu => hbest ρ hρ u _ hu he⟩
 
@@ -572,12 +573,12 @@ theorem c03_slow_simplex_end_to_end_partial {m : Model (Ext K)} {t : K} (ht : 0 
 theorem c03_slow_simplex_unbounded_end_to_end_partial {m : Model (Ext K)} {t : K} (ht : 0 ≤ t) {maxSteps : Nat}
     {lm : LinModel (Ext K)} (h : Compile.linearize m (.fin t) maxSteps = .ok lm)
     (hm : FragModel true m m.domain) (hok : DeclOK m.domain)
-    (hint : ∀ an, pipelineAnalyzer m (.fin t) maxSteps = some an → IntRangesInBox an m.domain)
+    (ht1 : t < 1 ∨ NoIntegerVars m.domain)
     (hW : WF lm) (hnn : ∀ d ∈ lm.domain, ComposeSem.NNOK d.ty) (hdv : DomVars lm) (hnd : lm.vars.Nodup)
     {s : StdModel (Ext K)} (hs : standardize lm = .ok s) {T : Tab K} (hT : CanonicalFor T (stdK s))
     (stallExtra limit : Nat) (prefer : List Nat)
     (hunb : (solve (0:K) stallExtra limit prefer T).result = .error .unbounded) : SrcUnbounded m :=
-  (c03_compile_unbounded_partial ht h hm hok hint).mp
+  (c03_compile_unbounded_partial ht h hm hok ht1).mp
     (simplex_linUnbounded hW hnn hdv hnd hs hT stallExtra limit prefer hunb)
 
 /-- **source infeasibility from the built-in simplex, exact arithmetic**: a phase-1 optimum below zero on the standard
@@ -585,13 +586,13 @@ form of the compiled model means that NO assignment satisfies the source. -/
 theorem c03_slow_simplex_infeasible_end_to_end_partial {m : Model (Ext K)} {t : K} (ht : 0 ≤ t) {maxSteps : Nat}
     {lm : LinModel (Ext K)} (h : Compile.linearize m (.fin t) maxSteps = .ok lm)
     (hm : FragModel true m m.domain) (hok : DeclOK m.domain)
-    (hint : ∀ an, pipelineAnalyzer m (.fin t) maxSteps = some an → IntRangesInBox an m.domain)
+    (ht1 : t < 1 ∨ NoIntegerVars m.domain)
     (hW : WF lm) (hnn : ∀ d ∈ lm.domain, ComposeSem.NNOK d.ty) (hdv : DomVars lm)
     {s : StdModel (Ext K)} (hs : standardize lm = .ok s) (stallExtra limit : Nat) (prefer : List Nat)
     (hp1 : (solve (0:K) stallExtra limit prefer (phase1Tab (stdK s))).result = .ok ())
     (hneg : (solve (0:K) stallExtra limit prefer (phase1Tab (stdK s))).final.value < 0) :
     ∀ ρ : String → K, srcFeasible m ρ = false :=
-  (c03_compile_infeasible_partial ht h hm hok hint).mp
+  (c03_compile_infeasible_partial ht h hm hok ht1).mp
     (simplex_linInfeasible hW hnn hdv hs stallExtra limit prefer hp1 hneg)
 
 /-- non-vacuity (`K = ℚ`, every tolerance `t ≥ 0`, step limit 0): `max x s.t. c: x ≤ 2`, `x` NonNegativeReal.  Every
@@ -602,7 +603,7 @@ example (t : ℚ) (ht : 0 ≤ t) :
     srcFeasible exSrc (pointOf ["x"] [2]) = true ∧ eval (pointOf ["x"] [2]) exSrc.objective = some 2 ∧
     ∀ ρ : String → ℚ, srcFeasible exSrc ρ = true → ∀ u, eval ρ exSrc.objective = some u → u ≤ 2 := by
   have h := c03_slow_simplex_end_to_end_partial ht (exSrc_compile (.fin t)) exSrc_frag exSrc_declOK
-    (fun an _ => intRangesInBox_of_noInt exSrc_noInt an) exMax_wf exMax_nnok exMax_domVars exMax_nodup exMax_std
+    (Or.inr exSrc_noInt) exMax_wf exMax_nnok exMax_domVars exMax_nodup exMax_std
     exTM_canonicalFor 1 10 [] exTM_solve.1
   rw [exTM_solve.2, exTM'_preimage, exTM'_value] at h
   refine ⟨h.1, h.2.1, fun ρ hρ u hu => ?_⟩
